@@ -76,7 +76,8 @@ func main() {
 	if cpuSubrunIDs[id] && os.Getenv("VERIF_SUBRUN") == "" {
 		cpuSubrun(c, id)
 		if b386 := os.Getenv("VERIF_BIN_386"); b386 != "" && (cheap386[id] || c.Thorough()) {
-			subrun(c, id, "GOARCH=386", []string{b386, id, c.Tier})
+			// always the quick workload: a 32-bit process cannot hold the thorough tier's inputs
+			subrun(c, id, "GOARCH=386", []string{b386, id, "quick"})
 		}
 	}
 	os.Exit(c.Finish())
